@@ -478,6 +478,8 @@ class MolGraph:
         }
         if copy is True:
             new_graph = self.__class__()
+            atom_attrs = deepcopy(atom_attrs)
+            bond_attrs = deepcopy(bond_attrs)
         elif copy is False:
             new_graph = self
 
@@ -527,9 +529,9 @@ class MolGraph:
         """
         atoms = tuple(atoms)
         new_atoms = set(atoms)
-        atom_attrs = {atom: self._atom_attrs[atom] for atom in atoms}
+        atom_attrs = {atom: deepcopy(self._atom_attrs[atom]) for atom in atoms}
         bond_attrs = {
-            bond: attrs
+            bond: deepcopy(attrs)
             for bond, attrs in self._bond_attrs.items()
             if new_atoms.issuperset(bond)
         }
@@ -593,8 +595,8 @@ class MolGraph:
         """
         new_graph = cls()
         for mol_graph in mol_graphs:
-            new_graph._atom_attrs.update(mol_graph._atom_attrs)
-            new_graph._bond_attrs.update(mol_graph._bond_attrs)
+            new_graph._atom_attrs.update(deepcopy(mol_graph._atom_attrs))
+            new_graph._bond_attrs.update(deepcopy(mol_graph._bond_attrs))
 
             for atom, neighbors in mol_graph._neighbors.items():
                 new_graph._neighbors[atom].update(neighbors)
